@@ -237,6 +237,21 @@ def cases(ctx):
                 new = relayout(rng, src)
             out.append({"kind": kind, "rom": rom, "src": new, "files": files,
                         "twin": {"src": src, "rom": rom, "files": {}}, "spec": {"t": "twin", "labels": True}})
+    # a run of statements moved into an included file from INSIDE a construct (the .include stands between braces)
+    run = "zz_in:\nlda.b #0x12\n.dw zz_in\n"
+    for wname, w in (("block", "{\n%s}\n"), ("scope", ".scope zz_sc {\n%s}\n.dl zz_sc.zz_in\n"), ("macro", ".macro zz_mm() {\n%s}\nzz_mm()\n"),
+                     ("if", ".if 1 {\n%s}\n"), ("else", ".if 0 {\nnop\n} else {\n%s}\n"), ("for", ".for zz_i := 0, 2 {\n%s}\n")):
+        for rom, org in (("low", 0x018000), ("high", 0x410000)):
+            out.append({"kind": f"include-nested:{wname}", "rom": rom, "files": {"moved.s": run},
+                        "src": f"*={org:#08x}\nnop\n" + (w % ("rts\n.include 'moved.s'\nnop\n")) + "end:\n.dl end\n",
+                        "twin": {"src": f"*={org:#08x}\nnop\n" + (w % ("rts\n" + run + "nop\n")) + "end:\n.dl end\n", "rom": rom, "files": {}},
+                        "spec": {"t": "twin", "labels": True}})
+    # stand-alone mnemonics (implied and accumulator forms) in every letter case
+    for rom, org in (("low", 0x018000),):
+        lower = "rts\nclc\ntax\nphp\ninc\nasl\ndec\nlsr\nrol\nror\nnop\nxba\n"
+        for variant in (lower.upper(), "".join(ln.capitalize() + "\n" for ln in lower.split("\n") if ln)):
+            out.append({"kind": "naked-case", "rom": rom, "files": {}, "src": f"*={org:#08x}\n{variant}end:\n.dl end\n",
+                        "twin": {"src": f"*={org:#08x}\n{lower}end:\n.dl end\n", "rom": rom, "files": {}}, "spec": {"t": "twin", "labels": True}})
     # letter case of hexadecimal digits in literals written with redundant leading zeros, as whole operands, in data and in *=
     for lower, upper in (("lda 0x00fe\nsta 0x0000ab,x\nadc #0x00cd\n", "lda 0x00FE\nsta 0x0000AB,x\nadc #0x00CD\n"),
                          (".dw 0x00fe, 0x0abc\n.dl 0x00beef\nlda.w 0x00fa\n", ".dw 0x00FE, 0x0ABC\n.dl 0x00BEEF\nlda.w 0x00FA\n"),
